@@ -76,6 +76,7 @@ class Evaluator:
         self.errors = []        # handleError calls reached
         self.depth = 0
         self.stack = []
+        self.structural = False     # allow recursion on strictly different arguments (finite expression trees)
 
     # ------------------------------------------------------------------ atoms
     def atom(self, key):
@@ -316,9 +317,11 @@ class Evaluator:
             tgt = cands[0]
         if tgt is None or tgt.get("body") is None:
             return Atom(("call", fnq) + tuple(self.vkey(self.safe_ev(a, env)) for a in c.get("args", [])))
-        if self.depth > 12 or fnq in self.stack:
+        argkey = tuple(self.vkey(self.safe_ev(a, env)) for a in c.get("args", []))
+        if self.depth > 12 or (fnq, argkey) in self.stack or \
+                (not self.structural and fnq in [f for f, _ in self.stack]):
             # recursion into sub-structure the domain does not model: opaque function of the arguments
-            return Atom(("rec", fnq) + tuple(self.vkey(self.safe_ev(a, env)) for a in c.get("args", [])))
+            return Atom(("rec", fnq) + argkey)
         env2 = {}
         args = c.get("args", [])
         for i, p in enumerate(tgt["params"]):
@@ -328,7 +331,7 @@ class Evaluator:
             elif p.get("def") is not None:
                 env2[p["name"]] = self.ev(p["def"], {})
         self.depth += 1
-        self.stack.append(fnq)
+        self.stack.append((fnq, argkey))
         try:
             return self.run_fn(tgt, env2)
         finally:
@@ -388,7 +391,40 @@ class Evaluator:
             return
         if k == "attributed":
             return self.exec(n.get("s"), env)
-        if k in ("for", "while", "do", "rangefor", "switch", "try", "goto"):
+        if k == "switch":
+            sel = self.ev(n["c"], env)
+            if not (isinstance(sel, tuple) and sel and sel[0] == "enum"):
+                if isinstance(sel, Atom):
+                    raise Cannot("switch over an opaque value")
+                raise Cannot("switch over %r" % (sel,))
+            items = []
+            for st in n["body"].get("s", []):
+                labels = []
+                while isinstance(st, dict) and st.get("k") in ("case", "default"):
+                    if st["k"] == "case":
+                        v = st.get("v", {})
+                        labels.append(v.get("name") if v.get("k") == "ref" else None)
+                    else:
+                        labels.append("default")
+                    st = st.get("s")
+                items.append((labels, st))
+            start = None
+            for i, (labels, _) in enumerate(items):
+                if sel[1] in labels:
+                    start = i
+            if start is None:
+                for i, (labels, _) in enumerate(items):
+                    if "default" in labels:
+                        start = i
+            if start is None:
+                return
+            try:
+                for labels, st in items[start:]:
+                    self.exec(st, env)
+            except Brk:
+                pass
+            return
+        if k in ("for", "while", "do", "rangefor", "try", "goto"):
             raise Cannot("%s statement" % k)
         if k in ("case", "default"):
             return self.exec(n.get("s"), env)
